@@ -43,11 +43,52 @@ Theorem C13_modelled_visitors_local :
 Proof. exact (conj dc_local (conj mk_local (conj tsv_local (conj iec_local (conj tac_local (conj coc_local sk_local)))))). Qed.
 Print Assumptions C13_modelled_visitors_local.
 
+(* ... and every modelled per-declaration visitor is position equivariant (all seven; the file-level one is below) *)
 Theorem C13_modelled_visitors_equivariant :
   equivariant dc_on_decl shift_decl /\ equivariant mk_on_decl shift_decl /\ equivariant tsv_on_decl shift_decl
-  /\ equivariant coc_on_decl shift_decl.
-Proof. exact (conj dc_equivariant (conj mk_equivariant (conj tsv_equivariant coc_equivariant))). Qed.
+  /\ equivariant coc_on_decl shift_decl
+  /\ (forall thr, equivariant (iec_on_decl thr) shift_decl) /\ equivariant tac_on_decl shift_decl /\ equivariant sk_on_decl shift_decl.
+Proof. exact (conj dc_equivariant (conj mk_equivariant (conj tsv_equivariant (conj coc_equivariant
+              (conj iec_equivariant (conj tac_equivariant sk_equivariant)))))). Qed.
 Print Assumptions C13_modelled_visitors_equivariant.
+
+(* the shift law instantiated: for each modelled visitor, W (shift k f) = shift k (W f) from ANY scratch state of the invariant *)
+Theorem C13_shift_ifElseChain : forall thr k s f, snd (iec_run thr s (map (shift_decl k) f)) = map (shift_w k) (snd (iec_run thr s f)).
+Proof. intros. exact (walk_shift _ _ (iec_local thr) shift_decl (iec_equivariant thr) k s f I). Qed.
+Print Assumptions C13_shift_ifElseChain.
+Theorem C13_shift_typeAssertChain : forall c k s f, snd (tac_run c s (map (shift_decl k) f)) = map (shift_w k) (snd (tac_run c s f)).
+Proof. intros. exact (walk_shift _ _ tac_local shift_decl tac_equivariant k s f I). Qed.
+Print Assumptions C13_shift_typeAssertChain.
+Theorem C13_shift_dupCase : forall c k s f, snd (dc_run c s (map (shift_decl k) f)) = map (shift_w k) (snd (dc_run c s f)).
+Proof. intros. exact (walk_shift _ _ dc_local shift_decl dc_equivariant k s f I). Qed.
+Print Assumptions C13_shift_dupCase.
+Theorem C13_shift_mapKey : forall c k s f, snd (mk_run c s (map (shift_decl k) f)) = map (shift_w k) (snd (mk_run c s f)).
+Proof. intros. exact (walk_shift _ _ mk_local shift_decl mk_equivariant k s f I). Qed.
+Print Assumptions C13_shift_mapKey.
+Theorem C13_shift_typeSwitchVar : forall c k s f, snd (tsv_run c s (map (shift_decl k) f)) = map (shift_w k) (snd (tsv_run c s f)).
+Proof. intros. exact (walk_shift _ _ tsv_local shift_decl tsv_equivariant k s f I). Qed.
+Print Assumptions C13_shift_typeSwitchVar.
+Theorem C13_shift_commentedOutCode : forall c k s f, snd (coc_run c s (map (shift_decl k) f)) = map (shift_w k) (snd (coc_run c s f)).
+Proof. intros. exact (walk_shift _ _ coc_local shift_decl coc_equivariant k s f I). Qed.
+Print Assumptions C13_shift_commentedOutCode.
+Theorem C13_shift_skipChilds : forall c k s f, s = false -> snd (sk_run c s (map (shift_decl k) f)) = map (shift_w k) (snd (sk_run c s f)).
+Proof. intros c k s f H. exact (walk_shift _ _ sk_local shift_decl sk_equivariant k s f H). Qed.
+Print Assumptions C13_shift_skipChilds.
+
+(* typeDefFirst is exempt from the per-declaration laws (next theorem), yet a UNIFORM shift of the whole file only shifts its diagnostics *)
+Theorem C13_shift_typeDefFirst_whole_file : forall k c s f, snd (tdf_run c s (map (shift_decl k) f)) = map (shift_w k) (snd (tdf_run c s f)).
+Proof. exact tdf_shift. Qed.
+Print Assumptions C13_shift_typeDefFirst_whole_file.
+
+(* The laws in evaluated form. [predict] assembles, from per-declaration runs on the ORIGINAL declarations, what the walker must
+   report on a transformed file whose declarations are tagged "padding" or "copy of original #i at another offset" (each such claim is
+   checked by decl_eqb against shift_decl). The generated files work/C13/cases_law_*.v evaluate it on the converted real files the
+   metamorphic oracle writes; this theorem says the evaluated prediction IS the walker's result on the transformed file. *)
+Theorem C13_predict_sound : forall (S : Type) (on_decl : S -> decl -> S * list warning) (Inv : S -> Prop),
+  decl_local on_decl Inv -> equivariant on_decl shift_decl -> forall s0, Inv s0 ->
+  forall ds ds' tags ws, predict on_decl s0 ds ds' tags = Some ws -> snd (walk on_decl s0 ds') = ws.
+Proof. exact @predict_sound. Qed.
+Print Assumptions C13_predict_sound.
 
 (* why typeDefFirst is exempt: its per-declaration step is not local (file-level subject) *)
 Theorem C13_typeDefFirst_not_local_refuted :
@@ -59,5 +100,5 @@ Print Assumptions C13_typeDefFirst_not_local_refuted.
 Example C13_example_dupCase :
   let f := DFunc 1 false None (Some [SSwitch 2 [(3%N, 5%N); (4%N, 5%N)]]) [] in
   snd (walk dc_on_decl [] [f]) = [(4%N, "case is duplicated")]
-  /\ snd (walk dc_on_decl [] [DFunc 1 false None None []; DOther 2; shift_decl 10 f]) = [(14%N, "case is duplicated")].
+  /\ snd (walk dc_on_decl [] [DFunc 1 false None None []; DOther 2 []; shift_decl 10 f]) = [(14%N, "case is duplicated")].
 Proof. vm_compute. auto. Qed.
